@@ -1,19 +1,44 @@
 #!/usr/bin/env python3
 """Applies every behaviour-preserving refactoring (selftest/equiv-*.patch; each passes the 150 baseline tests) to a scratch copy and
-runs all 20 checks: every check must exit 0 (no alarm on code where the property holds).  Writes selftest/EQUIV.md."""
+runs all 20 checks: every check must exit 0 (no alarm on code where the property holds).  Writes selftest/EQUIV.md.
+   tools/equiv_check.py [-j N] [patch ...]"""
 import glob, os, subprocess, sys, re
+from concurrent.futures import ThreadPoolExecutor
 V = os.path.dirname(os.path.dirname(os.path.abspath(__file__)))
 ALL = ["C%02d" % i for i in range(1, 21)]
-rows = []
-bad = 0
-for d in sorted(glob.glob(os.path.join(V, "selftest", "equiv-*.patch"))):
+args = sys.argv[1:]
+jobs = 4
+if "-j" in args:
+    i = args.index("-j")
+    jobs = int(args[i + 1])
+    del args[i:i + 2]
+patches = [os.path.abspath(a) for a in args] or sorted(glob.glob(os.path.join(V, "selftest", "equiv-*.patch")))
+
+
+def run(d):
     r = subprocess.run([os.path.join(V, "tools", "mutant.py"), d] + ALL, cwd=V, stdout=subprocess.PIPE, stderr=subprocess.STDOUT, text=True)
+    rows = []
+    cur = None
     for l in r.stdout.splitlines():
         m = re.match(r"== (C\d+) on (.*): exit (\d+), (\d+) findings", l)
         if m:
-            rows.append((os.path.basename(d), m.group(1), m.group(3)))
-            bad += m.group(3) != "0"
+            cur = [os.path.basename(d), m.group(1), m.group(3), ""]
+            rows.append(cur)
             print(l, flush=True)
-open(os.path.join(V, "selftest", "EQUIV.md"), "w").write("# Behaviour-preserving refactorings vs. checks (every entry must be `silent`)\n\n| patch | check | result |\n|---|---|---|\n" +
-    "\n".join("| %s | %s | %s |" % (a, b, "silent" if c == "0" else "ALARM (exit %s)" % c) for a, b, c in rows) + "\n")
+        elif cur is not None and cur[2] != "0" and not cur[3] and l.strip():
+            cur[3] = l.strip()[:200]
+            print("   ", cur[3], flush=True)
+    return rows
+
+
+with ThreadPoolExecutor(max_workers=jobs) as ex:
+    rows = [r for rs in ex.map(run, patches) for r in rs]
+bad = sum(1 for r in rows if r[2] != "0")
+if not args:
+    open(os.path.join(V, "selftest", "EQUIV.md"), "w").write(
+        "# Behaviour-preserving refactorings vs. checks (every entry must be `silent`)\n\n"
+        "`equiv-refactor-N`: written here; `equiv-agent-N`: written by independent sub-agents that saw only the repository "
+        "(their notes: `equiv-agent-N.NOTES.md`).  Every patch passes the 150 baseline tests and the doc-tests.\n\n"
+        "| patch | check | result |\n|---|---|---|\n" +
+        "\n".join("| %s | %s | %s |" % (a, b, "silent" if c == "0" else "ALARM (exit %s) %s" % (c, d)) for a, b, c, d in rows) + "\n")
 sys.exit(1 if bad else 0)
